@@ -1,15 +1,15 @@
 SPECIFICATION Spec
 CONSTANTS
-  MaxW = 3
+  MaxW = 2
   MaxRoot = 1
   MaxMid = 1
   RootTargets = {"m"}
-  MidTargets = {"a"}
+  MidTargets = {"math"}
   Spellings = {"plain"}
   CfgPool = "none"
-  ListPool = "basic"
+  ListPool = "pi"
   AccNs = {"m"}
-  LawDev = {"fwd_prefix_filter_swapped"}
-  AccMembers <- AccMembersFwd
-INVARIANTS InvFilterExact
+  LawDev = {"builtin_marker_lost_in_forward"}
+  AccMembers <- AccMembersPi
+INVARIANTS InvBuiltin
 CHECK_DEADLOCK FALSE
